@@ -46,5 +46,21 @@ ENTRY = dict(
             "device-class loading is the only suspension inside the lock besides the dispatch callbacks; both are separate machine moves",
             "final_ok speaks about the driver's FIFO settle policy (passes until no caller can move); fairness of the real event loop is exercised, not proved",
         ],
+        public_routes={
+            "AsyncProtocol.connection_established(reader, writer)": "driven + compared (every case; again on every reconnect event)",
+            "AsyncProtocol.connection_lost() via end of stream -> on_connection_lost callbacks": "driven + compared (reconnect event at every position: plain callback AND Connection._reconnect of a Connection object owning the protocol, i.e. what open_tcp_connection / open_serial_connection(protocol=..., reconnect_on_failure=True) return)",
+            "get(name)": "driven + compared (get() at every position; result object per call in every snapshot)",
+            "get(name, timeout=...)": "driven + compared (an impatient get() that times out at every position next to a patient one)",
+            "wait_for(name) + get_nowait(name) / attribute access protocol.<name>": "driven + compared (route dimension of every get() caller; get_nowait and attribute access also read at every instant and compared with the entry)",
+            "subscribe(name, cb) on the protocol-level device event": "driven + compared (observer on 69/81/86, suspending or not: every announced value)",
+            "subscribe_once(name, cb)": "driven + compared (must see exactly the one announced object)",
+            "consumers_count": "driven: 1..5 (the machine over-approximates every count)",
+            "frames from ecoSTER (81) / known addresses without a device class (86)": "driven + compared",
+            "device object kept by the client across a reconnect": "driven + compared (same object from later get() calls, data of the last frame on it, set-up not restarted)",
+            "reconnect with failed open attempts / a gap while disconnected": "not driven here (the atomic lost-and-re-established event only); C11 drives Connection with scripted open failures",
+            "shutdown() and re-use of the protocol object afterwards": "outside the statement (lifetime of a connection); C12",
+            "DummyProtocol": "not applicable: no device entries, no read queue (the reader alone is C01/C04/C14)",
+            "a protocol-level subscriber that raises": "outside the quantifier (schedules, not callback faults); observed on /repo: the entry is not stored, the next frame creates another device + set-up task",
+        },
         timeout={"quick": 300, "thorough": 1500},
     )
